@@ -1026,3 +1026,78 @@ def nat_special_pairs():
             for b in p32:
                 lines.append("nat32 %s %d %d" % (op, a, b))
     return lines
+
+
+def nearest_tok(s, v, sign=0, delta=0):
+    """token of the float of format s nearest (by truncation) to the positive rational/float v, moved by delta ulps"""
+    from fractions import Fraction
+    v = Fraction(v)
+    e = v.numerator.bit_length() - v.denominator.bit_length()
+    if Fraction(2) ** e > v:
+        e -= 1
+    e = max(s.emin, min(s.emax, e))
+    m = int(v / Fraction(2) ** (e - (s.P - 1))) + delta
+    if m >= 2 ** s.P:
+        m, e = m >> 1, e + 1
+    if m < 2 ** (s.P - 1) and e > s.emin:
+        m, e = m * 2, e - 1
+    m = max(1, min(2 ** s.P - 1, m))
+    if e > s.emax:
+        e, m = s.emax, 2 ** s.P - 1
+    return ftok("N", sign, e, m)
+
+
+def exp_threshold_lines(rng, fmts, names=("exp", "sigmoid"), modes=("E", "A")):
+    """arguments near the overflow / underflow thresholds of exp: +-ln(max finite), +-ln(min normal), +-ln(min subnormal)"""
+    import math
+    lines = []
+    for (E, P) in fmts:
+        if E > 11:
+            continue  # |x| <= 1024 is the property's domain
+        for m in modes:
+            s = Sem(E, P, m)
+            pts = [(s.emax + 1) * math.log(2), s.emin * math.log(2), (s.emin - (P - 1)) * math.log(2), (s.emin - P) * math.log(2),
+                   (s.emax + 1) * math.log(2) / 2, ((s.emax + 1) + (P - 1) / 2.0) * math.log(2)]
+            for t in pts:
+                a = abs(t)
+                if a > 1024 or a == 0:
+                    continue
+                for f in (0.98, 0.995, 0.9999, 1.0, 1.0001, 1.005, 1.02, 1.08, 1.15):
+                    for sg in (0, 1):
+                        for name in names:
+                            lines.append("fn %s %s %s" % (name, s, nearest_tok(s, a * f, sg, rng.randrange(-2, 3))))
+    return lines
+
+
+def log_near_one_lines(rng, fmts, per=24, modes=MODES):
+    lines = []
+    for (E, P) in fmts:
+        for m in modes:
+            s = Sem(E, P, m)
+            for _ in range(per):
+                k = rng.randrange(2, min(P - 1, 40))
+                c = rng.randrange(1, 64)
+                below = 2 ** P - min(2 ** P - 2 ** (P - 1) - 1, c * 2 ** max(0, P - k - 6))
+                above = 2 ** (P - 1) + min(2 ** (P - 1) - 1, c * 2 ** max(0, P - 1 - k - 6))
+                lines.append("fn log %s %s" % (s, ftok("N", 0, -1, max(2 ** (P - 1), below))))
+                lines.append("fn log %s %s" % (s, ftok("N", 0, 0, above)))
+    return lines
+
+
+def trig_multiple_lines(rng, fmts, modes=("E", "A"), kmax=81):
+    """both signs of the floats around k*pi/2, |x| <= 128 (range-reduction boundaries)"""
+    from fractions import Fraction
+    PI = Fraction(314159265358979323846264338327950288419716939937510, 10 ** 50)
+    lines = []
+    for (E, P) in fmts:
+        for m in modes:
+            s = Sem(E, P, m)
+            for k in range(1, kmax + 1):
+                v = PI * k / 2
+                if v > 128:
+                    break
+                for d in (-1, 0, 1, 2):
+                    for name in ("sin", "cos", "tan"):
+                        for sg in (0, 1):
+                            lines.append("fn %s %s %s" % (name, s, nearest_tok(s, v, sg, d)))
+    return lines
